@@ -143,36 +143,36 @@ mutual
         rcases h with (h | h) | h
         · have := transfList_err n bound ds h; errs
         · have := transfOptList_err n bound kd h; errs
-        · have := transf_err n (Arguments.paramNames (.mk po as va ko kd kw ds) ++ bound) body h; errs
+        · have := transf_err n (compMark :: (Arguments.paramNames (.mk po as va ko kd kw ds) ++ bound)) body h; errs
     | bound, .listComp elt gens, h => by
         simp only [hasUnsup, Bool.or_eq_true] at h
         simp only [transf]
         refine isErr_bind_r (fun names => ?_)
         rcases h with h | h
-        · have := transf_err n (names ++ bound) elt h; errs
-        · have := transfComps_err n (names ++ bound) gens h; errs
+        · have := transf_err n (compMark :: (names ++ bound)) elt h; errs
+        · have := transfComps_err n bound (compMark :: (names ++ bound)) gens h; errs
     | bound, .setComp elt gens, h => by
         simp only [hasUnsup, Bool.or_eq_true] at h
         simp only [transf]
         refine isErr_bind_r (fun names => ?_)
         rcases h with h | h
-        · have := transf_err n (names ++ bound) elt h; errs
-        · have := transfComps_err n (names ++ bound) gens h; errs
+        · have := transf_err n (compMark :: (names ++ bound)) elt h; errs
+        · have := transfComps_err n bound (compMark :: (names ++ bound)) gens h; errs
     | bound, .generatorExp elt gens, h => by
         simp only [hasUnsup, Bool.or_eq_true] at h
         simp only [transf]
         refine isErr_bind_r (fun names => ?_)
         rcases h with h | h
-        · have := transf_err n (names ++ bound) elt h; errs
-        · have := transfComps_err n (names ++ bound) gens h; errs
+        · have := transf_err n (compMark :: (names ++ bound)) elt h; errs
+        · have := transfComps_err n bound (compMark :: (names ++ bound)) gens h; errs
     | bound, .dictComp k v gens, h => by
         simp only [hasUnsup, Bool.or_eq_true] at h
         simp only [transf]
         refine isErr_bind_r (fun names => ?_)
         rcases h with (h | h) | h
-        · have := transf_err n (names ++ bound) k h; errs
-        · have := transf_err n (names ++ bound) v h; errs
-        · have := transfComps_err n (names ++ bound) gens h; errs
+        · have := transf_err n (compMark :: (names ++ bound)) k h; errs
+        · have := transf_err n (compMark :: (names ++ bound)) v h; errs
+        · have := transfComps_err n bound (compMark :: (names ++ bound)) gens h; errs
     | bound, .joinedStr vs, h => by
         simp only [hasUnsup] at h
         have := transfList_err n bound vs h
@@ -312,17 +312,17 @@ mutual
         · have := transf_err n bound v h; errs
         · have := transfKeywords_err n bound ks h; errs
 
-  theorem transfComps_err (n : Nsp) : ∀ (bound : List String) (gs : List Comp),
-      hasUnsupG gs = true → IsErr (transfComps n bound gs)
-    | bound, [], h => by simp [hasUnsupG] at h
-    | bound, .mk t i ifs a :: gs, h => by
+  theorem transfComps_err (n : Nsp) : ∀ (first bound : List String) (gs : List Comp),
+      hasUnsupG gs = true → IsErr (transfComps n first bound gs)
+    | first, bound, [], h => by simp [hasUnsupG] at h
+    | first, bound, .mk t i ifs a :: gs, h => by
         simp only [hasUnsupG, Bool.or_eq_true] at h
         simp only [transfComps]
         rcases h with ((h | h) | h) | h
         · have := transfTarget_err n bound t h; errs
-        · have := transf_err n bound i h; errs
+        · have := transf_err n first i h; errs
         · have := transfList_err n bound ifs h; errs
-        · have := transfComps_err n bound gs h; errs
+        · have := transfComps_err n bound bound gs h; errs
 
   theorem transfTarget_err (n : Nsp) : ∀ (bound : List String) (e : Expr), hasUnsupT e = true → IsErr (transfTarget n bound e)
     | bound, .tuple es, h => by
